@@ -328,8 +328,7 @@ class SingleInterval(Location):
     def union(self, other: Location) -> Location:
         if self.strand != other.strand:
             raise ValueError(f"Strands do not match: {self.strand} != {other.strand}")
-        if self.parent:
-            ObjectValidation.require_parents_equal_except_location(self.parent, other.parent)
+        ObjectValidation.require_parents_equal_except_location(self.parent, other.parent)
         if type(other) is SingleInterval:
             return self._union_single_interval(other)
         return other.union(self)
@@ -918,8 +917,7 @@ class CompoundInterval(Location):
     def union(self, other: Location) -> Location:
         if self.strand != other.strand:
             raise ValueError(f"Strands do not match: {self.strand} != {other.strand}")
-        if self.parent:
-            ObjectValidation.require_parents_equal_except_location(self.parent, other.parent)
+        ObjectValidation.require_parents_equal_except_location(self.parent, other.parent)
         if type(other) is SingleInterval:
             return self._union_single_interval(other)
         if type(other) is CompoundInterval:
@@ -1199,8 +1197,7 @@ def EmptyLocation():
 def _union_preserve_overlaps(loc1: Location, loc2: Location) -> Location:
     if loc1.strand != loc2.strand:
         raise InvalidStrandException(f"Strands do not match: {loc1.strand} != {loc2.strand}")
-    if loc1.parent:
-        ObjectValidation.require_parents_equal_except_location(loc1.parent, loc2.parent)
+    ObjectValidation.require_parents_equal_except_location(loc1.parent, loc2.parent)
     starts = [block.start for loc in [loc1, loc2] for block in loc.blocks]
     ends = [block.end for loc in [loc1, loc2] for block in loc.blocks]
     parent = loc1.parent.strip_location_info() if loc1.parent else None
